@@ -117,7 +117,7 @@ class Chk:
             core.CUR.path("raised:%s:%s@%s" % (fam, type(ex).__name__, core.exc_site(ex)))
             return None
 
-    def check(self, fam, feats, res, exp, contain=True, shape_known=True):
+    def check(self, fam, feats, res, exp, contain=True, shape_known=True, upper_active=None, flat=None):
         """exp = (ids, shape-or-None, fmts).  Returns True when ids and shape
         matched (so that a follow-up transform can be judged)."""
         feats = set(feats)
@@ -134,6 +134,8 @@ class Chk:
                     f2 = set(feats)
                     if got is None:
                         f2.add("dm:authoritative_shape_dropped")
+                    elif got == self.shape and fam == "swapRanks":
+                        f2.add("dm:operand_shape_kept_unswapped")
                     self.V(fam, "shape", f2, eshape, got)
                     ok = False
             d = unbox(res.getDefault())
@@ -160,7 +162,17 @@ class Chk:
                     f2.add("dm:mutable_reset_to_False")
                 self.V(fam, "mutable", f2, self.mut, m)
             if contain:
-                self.contain(fam, feats, res)
+                if flat is not None:
+                    # unflatten: label a shape that was cut out of the flattened
+                    # rank's (lexicographic-maximum) estimate
+                    fs, d, l = flat
+                    try:
+                        cut = R.unnest(fs[d], l)
+                    except Exception:
+                        cut = None
+                    if cut is not None and res.getShape()[d:d + l + 1] == cut and self.smode == "estimated":
+                        feats = feats | {"dm:shape_cut_from_lexicographic_estimate"}
+                self.contain(fam, feats, res, upper_active)
             core.CUR.outcome((fam, repr(ids), repr(res.getShape()), d, tuple(sorted(gf.items(), key=repr)), m))
         except (Exception, SystemExit) as ex:
             self.V(fam, "exception-in-getter:" + type(ex).__name__, feats | {"site:" + core.exc_site(ex)},
@@ -168,30 +180,61 @@ class Chk:
             return False
         return ok
 
-    def contain(self, fam, feats, res):
+    def contain(self, fam, feats, res, upper_active=None):
+        """Every stored coordinate inside the reported shape and inside its
+        fiber's active range; iterActive == iterOccupancy."""
         shape = res.getShape()
         root = res.getRoot()
         if not isinstance(root, Fiber) or wf(root):
             return        # malformed results are C09's to report
-        for lvl, fibers in enumerate(_levels(root)):
+        strict = self.smode == "declared"
+        todo = [(root, 0, None)]
+        while todo:
+            f, lvl, pc = todo.pop()
             if lvl >= len(shape):
-                break
+                continue
             s = shape[lvl]
-            for f in fibers:
-                rng = f.getActive()
-                for c in f.coords:
-                    if not R.inside_shape(c, s):
-                        self.V(fam, "coord-outside-shape", feats | {"level=%d" % lvl}, s, [c, list(f.coords)])
-                        return
-                    if not R.inside_range(c, rng):
-                        f2 = feats | {"level=%d" % lvl}
-                        self.V(fam, "coord-outside-active-range", f2, list(rng), [c, list(f.coords)])
-                        return
-                a = [c for c, _ in f.iterActive(tick=False)]
-                o = [c for c, _ in f.iterOccupancy(tick=False)]
-                if a != o:
-                    self.V(fam, "iterActive-differs", feats | {"level=%d" % lvl}, o, a)
+            fl = feats | {"level=%d" % lvl}
+            rng = f.getActive()
+            for c in f.coords:
+                inside = R.inside_shape(c, s) if strict else R.inside_shape_lex(c, s)
+                if not inside:
+                    self.V(fam, "coord-outside-shape", fl, s, [c, list(f.coords)])
                     return
+                try:
+                    ok = rng[0] <= c < rng[1]
+                except TypeError:
+                    f2 = set(fl)
+                    if isinstance(c, tuple) and R.nest_pair(c) != c and \
+                            R.inside_range(R.nest_pair(c), rng):
+                        f2.add("dm:active_range_nested_like_pair_style")
+                    self.V(fam, "active-range-incomparable", f2, c, list(rng))
+                    return
+                if not ok:
+                    f2 = set(fl)
+                    if isinstance(pc, int) and isinstance(c, int) and \
+                            all(R.inside_range(x + pc, rng) for x in f.coords):
+                        f2.add("dm:active_range_in_absolute_coordinates")
+                    if upper_active is not None and lvl == upper_active[0] and tuple(rng) == upper_active[1]:
+                        f2.add("dm:active_range_of_upper_rank")
+                    self.V(fam, "coord-outside-active-range", f2, list(rng), [c, list(f.coords)])
+                    return
+            a = [c for c, _ in f.iterActive(tick=False)]
+            o = [c for c, _ in f.iterOccupancy(tick=False)]
+            if a != o:
+                self.V(fam, "iterActive-differs", fl, o, a)
+                return
+            for c, p in zip(f.coords, f.payloads):
+                if isinstance(p, Fiber):
+                    todo.append((p, lvl + 1, c))
+
+    def est(self, lvl):
+        """Extent of rank lvl as the operand reports it: the declared shape or
+        the estimate max stored coordinate + 1 (0 without elements)."""
+        if self.shape is not None:
+            return self.shape[lvl]
+        cs = [p[lvl] for p in R9.stored_prefixes(self.spec, self.depth, lvl + 1)]
+        return max(cs) + 1 if cs else 0
 
 
 def g_swizzle(k):
@@ -223,11 +266,13 @@ def g_flatten(k):
             r = k.call("flattenRanks", lambda: k.fresh().flattenRanks(depth=d, levels=l, coord_style=style))
             if r is None:
                 continue
-            ok = k.check("flattenRanks", feats, r, exp, contain=(style != "relative"))
+            ok = k.check("flattenRanks", feats, r, exp, contain=(style != "relative"),
+                         upper_active=(d, (0, k.est(d))))
             if ok and style in R9.INVERTIBLE:
                 u = k.call("unflattenRanks", lambda: r.unflattenRanks(depth=d, levels=l))
                 if u is not None:
-                    k.check("unflattenRanks", feats, u, R.exp_unflatten(k.ids, k.shape, k.fm, d, l))
+                    k.check("unflattenRanks", feats, u, R.exp_unflatten(k.ids, k.shape, k.fm, d, l),
+                            flat=(r.getShape(), d, l))
 
 
 def g_merge(k):
@@ -235,12 +280,12 @@ def g_merge(k):
     for d, l in R9.legal_flatten(D):
         for style in ("absolute", "relative"):
             feats = {"d=%d" % d, "levels=%d" % l, "style:" + style}
-            if dims[d + l] > dims[d]:
-                feats.add("lower_shape_exceeds_upper")
+            if k.est(d + l) > k.est(d):
+                feats.add("lower_extent_exceeds_upper")
             exp = R.exp_flatten(k.ids, k.shape, k.fm, d, l, style)
             r = k.call("mergeRanks", lambda: k.fresh().mergeRanks(depth=d, levels=l, coord_style=style))
             if r is not None:
-                k.check("mergeRanks", feats, r, exp, contain=(style != "relative"))
+                k.check("mergeRanks", feats, r, exp, contain=(style != "relative"), upper_active=(d, (0, k.est(d))))
 
 
 SPLITS = (
@@ -280,7 +325,7 @@ def g_update(k):
     D, dims = k.depth, k.dims
     exp = (k.ids, k.shape, k.fm)
     for d in range(D):
-        n = dims[d]
+        n = k.est(d)      # reverse inside the extent the operand reports
         r = k.call("updateCoords", lambda: k.fresh().updateCoords(lambda i, c, p: n - 1 - c, depth=d))
         if r is not None:
             k.check("updateCoords", {"d=%d" % d}, r, exp)
@@ -311,12 +356,20 @@ def _nontrivial(self):
 Chk.R_nontrivial = _nontrivial
 
 
-def configs(depth):
+def configs(depth, mode="full"):
+    """full: {declared, estimated} x {0, 7} x {C,U}^depth x {False, True};
+    paired: default and mutable hint move together ((0, False), (7, True));
+    shapefmt: shape mode x formats with default 7 and mutable True."""
     for smode in ("declared", "estimated"):
-        for dflt in (0, DFLT):
-            for fmts in itertools.product("CU", repeat=depth):
-                for mut in (False, True):
-                    yield smode, dflt, fmts, mut
+        for fmts in itertools.product("CU", repeat=depth):
+            if mode == "full":
+                dm = [(d, m) for d in (0, DFLT) for m in (False, True)]
+            elif mode == "paired":
+                dm = [(0, False), (DFLT, True)]
+            else:
+                dm = [(DFLT, True)]
+            for dflt, mut in dm:
+                yield smode, dflt, fmts, mut
 
 
 def _universe(name):
@@ -336,15 +389,15 @@ def _universe(name):
 
 
 def shard_transform(acc, shard, nshards, params):
-    name, deadline = params
+    name, mode, deadline = params
     dims, specs = _universe(name)
 
     def gen():
         for spec in specs:
-            for smode, dflt, fmts, mut in configs(len(dims)):
+            for smode, dflt, fmts, mut in configs(len(dims), mode):
                 for g in GROUPS:
                     yield (dims, spec, smode, dflt, fmts, mut, g)
-    drive(acc, "transform", case_transform, gen(), shard, nshards, family="transform[%s]" % name, deadline=deadline)
+    drive(acc, "transform", case_transform, gen(), shard, nshards, family="transform[%s,%s]" % (name, mode), deadline=deadline)
 
 
 # ---------------------------------------------------------------------------
@@ -624,18 +677,21 @@ def run(ctx):
     import time
     q = ctx.quick
     if q:
-        tplan = [("T2(2,2)", None), ("T2(2,3;-v)", None), ("T2(3,2;-v)", None), ("T3c(2,2,2;<=2|8)", None)]
+        tplan = [("T2(2,2)", "full", None), ("T2(2,3;-v)", "shapefmt", None), ("T2(3,2;-v)", "shapefmt", None),
+                 ("T3c(2,2,2;<=2|8)", "paired", None)]
         lazy_n, join_u = 2, ["T2(2,2)"]
     else:
-        tplan = [("T2(2,2)", None), ("T2(2,3;-v)", None), ("T2(3,2)", None), ("T3(2,2,2;-v)", 420)]
+        tplan = [("T2(2,2)", "full", None), ("T2(2,3;-v)", "full", None), ("T2(3,2)", "paired", None),
+                 ("T3c(2,2,2;<=2|8)", "full", None), ("T3(2,2,2;-v)", "paired", 420)]
         lazy_n, join_u = 3, ["T2(2,2)", "T3(2,2,2;-v)"]
     ctx.bounds = {
-        "transform": "universes %s; configurations {declared, estimated shape} x {default 0, 7} x {C,U}^depth x "
-                     "{mutable False, True}; swizzleRanks every permutation, swapRanks every depth, flattenRanks every "
+        "transform": "universes (with configuration mode) %s; configurations full = {declared, estimated shape} x "
+                     "{default 0, 7} x {C,U}^depth x {mutable False, True}, paired = default and mutable hint move together "
+                     "((0,False),(7,True)), shapefmt = shape mode x formats with default 7 and mutable True; swizzleRanks every permutation, swapRanks every depth, flattenRanks every "
                      "legal (depth, levels) x 5 styles (+ unflattenRanks for tuple / pair), mergeRanks absolute / relative, "
                      "splitUniform / splitEqual / splitNonUniform / splitUnEqual (two parameter values, relativeCoords both "
                      "ways, by depth and by rank id) at every depth, / and //, updateCoords at every depth, updatePayloads, "
-                     "and the constructor result itself" % ", ".join(n for n, _ in tplan),
+                     "and the constructor result itself" % ", ".join("%s:%s" % (n, m) for n, m, _ in tplan),
         "lazy": "all ordered pairs of F1(%d) x first operand's active range in {None} + every (s,e) with 0<=s<e<=%d x second "
                 "operand's in {None,(1,%d)} x shapes {declared, estimated} x {unowned, owned}; operators & | ^ - << "
                 "intersection (both styles) union prune coiterShape[Ref] coiterActiveShape[Ref] coiterRangeShape[Ref] "
@@ -647,9 +703,9 @@ def run(ctx):
 
     def want(name):
         return not only or any(name.startswith(o) for o in only)
-    for name, dl in tplan:
+    for name, mode, dl in tplan:
         if want("transform") or want(name):
-            ctx.shards(shard_transform, (name, None if dl is None else time.time() + dl))
+            ctx.shards(shard_transform, (name, mode, None if dl is None else time.time() + dl))
     if want("lazy"):
         ctx.shards(shard_lazy, (lazy_n,))
     if want("join"):
